@@ -144,15 +144,33 @@ def verdict(d, task, had_old):
     return None
 
 
-def do_save(d, task, at, crash):
-    st = EventStorage(d, at=at, crash=crash)
+def do_save(d, task, at, crash, st=None):
+    st = st or EventStorage(d, at=at, crash=crash)
     lab = labtech.Lab(storage=st, runner_backend='serial', continue_on_failure=True)
     global CURRENT
     st.armed = True
     CURRENT = st
+    # operating-system calls that remove or rename files are events of the save as well (the reference save makes none)
+    patched = {}
+
+    def wrap(name):
+        orig = getattr(os, name)
+        patched[name] = orig
+
+        def f(path, *a, **k):
+            if st.armed and str(path).startswith(str(d)):
+                st._event(f'os.{name}({os.path.basename(str(path))})')
+            return orig(path, *a, **k)
+        setattr(os, name, f)
+    for nm in ('unlink', 'remove', 'rename', 'replace', 'rmdir'):
+        wrap(nm)
+    st.reported = None
     try:
-        lab.run_tasks([task], bust_cache=True, disable_progress=True, disable_top=True)
+        res = lab.run_tasks([task], bust_cache=True, disable_progress=True, disable_top=True)
+        st.reported = 'result' if task in res else 'failed'
     finally:
+        for nm, orig in patched.items():
+            setattr(os, nm, orig)
         st.armed = False
         CURRENT = None
     return st.events
@@ -190,9 +208,13 @@ def explore(mode, limit=None, collect=False):
                             continue
                         do_save(d, task, None, False)
                     tried += 1
+                    not_reported = False
                     if mode == 'fault':
                         try:
-                            do_save(d, task, at, False)
+                            st_f = EventStorage(d, at=at, crash=False)
+                            do_save(d, task, at, False, st=st_f)
+                            fired = (at is None) or (len(st_f.events) >= at)
+                            not_reported = fired and st_f.reported == 'result'
                         except BaseException:   # noqa
                             pass
                     else:
@@ -206,8 +228,18 @@ def explore(mode, limit=None, collect=False):
                                 os._exit(0)
                         os.waitpid(pid, 0)
                     why = verdict(d, task, overwrite)
+                    if not why and not_reported:
+                        why = 'the save failed part-way but run_tasks returned a result for the task: the failure was not reported (the task must be reported as failed)'
+                        sid0 = site_id(mode, kind, overwrite, ref_events, at) + '/not-reported-as-failed'
+                        item = dict(reproduced=True, level='api', mode=mode, result_shape=kind, overwrite=overwrite, site=sid0, summary=f'{mode} at [{sid0}]: {why}')
+                        if not collect:
+                            return item, tried
+                        failing.append(item)
+                        continue
+                    if why and not_reported:
+                        why += '; moreover run_tasks returned a result for the task instead of reporting the failure'
                     if why:
-                        sid = site_id(mode, kind, overwrite, ref_events, at)
+                        sid = site_id(mode, kind, overwrite, ref_events, at) + ('/not-reported-as-failed' if not_reported else '')
                         item = dict(reproduced=True, level='api', mode=mode, result_shape=kind, overwrite=overwrite, site=sid,
                                     summary=f'{mode} at [{sid}]: {why}')
                         if not collect:
